@@ -64,3 +64,82 @@ Definition lastn {A} (n : nat) (l : list A) : list A := skipn (length l - n) l.
 Definition push (size : option nat) (buf : list nat) (e : nat) : list nat :=
   match size with None => buf ++ [e] | Some n => lastn n (buf ++ [e]) end.
 Definition feed (size : option nat) (es : list nat) : list nat := fold_left (push size) es [].
+
+(* ---------- level filter as a history of calls on ONE predicate object ---------- *)
+Inductive fop :=
+| FSet (ns : list nat) (l : nat)           (* setLogLevelForNamespace(ns, l); ns = [] sets the default key "" *)
+| FClear                                   (* clearLogLevels() *)
+| FQuery (ns : list nat)                   (* logLevelForNamespace(ns) *)
+| FFilter (lvl : option nat) (ns : list nat).   (* predicate(event) *)
+Inductive fans := ALevel (l : nat) | APass (b : bool).
+
+Record fstate := mkF { fcfg : cfg; fdflt : nat; fdef0 : nat }.
+
+(* dict[k] = v : overwrite in place, else insert *)
+Fixpoint set_key (k : list nat) (v : nat) (c : cfg) : cfg :=
+  match c with
+  | [] => [(k, v)]
+  | (k', v') :: r => if list_eqb k' k then (k, v) :: r else (k', v') :: set_key k v r
+  end.
+
+Definition fstep (s : fstate) (o : fop) : fstate :=
+  match o with
+  | FSet [] l => mkF (fcfg s) l (fdef0 s)
+  | FSet k l => mkF (set_key k l (fcfg s)) (fdflt s) (fdef0 s)
+  | FClear => mkF [] (fdef0 s) (fdef0 s)
+  | _ => s
+  end.
+
+Definition fanswer (s : fstate) (o : fop) : list fans :=
+  match o with
+  | FQuery ns => [ALevel (level_for (fcfg s) (fdflt s) ns)]
+  | FFilter lvl ns => [APass (passes (fcfg s) (fdflt s) lvl ns)]
+  | _ => []
+  end.
+
+Fixpoint frun (s : fstate) (ops : list fop) : list fans :=
+  match ops with
+  | [] => []
+  | o :: r => fanswer s o ++ frun (fstep s o) r
+  end.
+Definition finit (d0 : nat) : fstate := mkF [] d0 d0.
+
+(* ---- Spec: every answer is a function of the calls made so far ([h], newest first), read naively:
+        the latest setting of a namespace since the last clear; most specific configured prefix ---- *)
+Fixpoint latest (h : list fop) (ns : list nat) : option nat :=
+  match h with
+  | [] => None
+  | FSet [] _ :: r => latest r ns
+  | FSet k l :: r => if list_eqb k ns then Some l else latest r ns
+  | FClear :: _ => None
+  | _ :: r => latest r ns
+  end.
+Fixpoint latest_default (d0 : nat) (h : list fop) : nat :=
+  match h with
+  | [] => d0
+  | FSet [] l :: _ => l
+  | FClear :: _ => d0
+  | _ :: r => latest_default d0 r
+  end.
+Fixpoint try_prefixes_f (look : list nat -> option nat) (ns : list nat) (k : nat) : option nat :=
+  match k with
+  | 0 => None
+  | S k' => match look (firstn k ns) with Some v => Some v | None => try_prefixes_f look ns k' end
+  end.
+Definition level_spec (d0 : nat) (h : list fop) (ns : list nat) : nat :=
+  match try_prefixes_f (latest h) ns (length ns) with Some v => v | None => latest_default d0 h end.
+Definition answer_spec (d0 : nat) (h : list fop) (o : fop) : list fans :=
+  match o with
+  | FQuery ns => [ALevel (level_spec d0 h ns)]
+  | FFilter lvl ns =>
+      [APass (match lvl with
+              | None => false
+              | Some l => match ns with [] => false | _ => Nat.leb (level_spec d0 h ns) l end
+              end)]
+  | _ => []
+  end.
+Fixpoint spec_run (d0 : nat) (h : list fop) (ops : list fop) : list fans :=
+  match ops with
+  | [] => []
+  | o :: r => answer_spec d0 h o ++ spec_run d0 (o :: h) r
+  end.
